@@ -1,5 +1,5 @@
 """C20 -- FURLs and connection hints parse totally, reversibly and in bounded time."""
-import glob, itertools, json, os, re, subprocess, sys, time
+import glob, itertools, json, os, random, re, subprocess, sys, time
 from concurrent.futures import ThreadPoolExecutor
 from harness import common
 from harness.common import coq_list
@@ -786,6 +786,248 @@ def correspond_connect_all(ctx, impl, rng, model_ok):
     ctx.extra["connect_all_disagreements"] = bad
 
 
+# ------------------------------------------------------------------------------ connectToAll: waiting hints and the late phase
+
+LATE_KINDS = ("ok", "lf", "cf", "inv", "key", "wn", "wx", "wo", "wc", "wi", "wk")
+LATE_POOL = ["beh:%s:%s" % (k, i) for k in LATE_KINDS for i in "ab"] + ["beh:wn:c", "beh:lf:c", "tcp:h.example:1", "nocolon"]
+LATE_TOR_HINTS = ["tor:example.onion:80", "tor:b.onion:1", "tor:10.0.0.1:80", "tor:not@a@hint:123", "tor:example.onion:123456"]
+LATE_TOR_STATES = [("launch", "launch", "never"), ("control_endpoint_maker", "maker", "never"), ("control_endpoint_maker", "bootstrap", "never"),
+                   ("control_endpoint", "connect", "never"), ("launch", "launch", "fails"), ("control_endpoint", "socksport", "fails"),
+                   ("launch", None, None), ("default_socks", None, None)]
+# (hints, schedule, tor state): the witnesses of review-2 finding 1 first -- a Tor that never comes up
+LATE_FIXED = [
+    (["tor:example.onion:80"], [["timeout"]], ("launch", "launch", "never")),
+    (["tor:example.onion:80", "tor:10.0.0.1:80", "tor:not@a@hint:123"], [["timeout"], ["timeout"]], ("control_endpoint_maker", "maker", "never")),
+    (["tor:10.0.0.1:80", "tor:not@a@hint:123"], [["timeout"]], ("launch", "launch", "never")),
+    (["tor:example.onion:80", "tcp:h.example:1", "beh:key:a"], [["tor-fail"], ["timeout"]], ("control_endpoint_maker", "bootstrap", "never")),
+    (["tor:example.onion:80", "tor:b.onion:1"], [["tor-fail"], ["timeout"]], ("launch", "launch", "never")),
+    (["tor:example.onion:80", "tor:b.onion:1", "beh:lf:a"], [["tor-up"], ["connfail", "beh:lf:a"], ["timeout"]], ("launch", "launch", "never")),
+    (["tor:example.onion:80"], [["timeout"]], ("launch", "launch", "fails")),
+    (["tor:example.onion:80", "beh:ok:a"], [["timeout"]], ("launch", None, None)),
+    (["beh:wn:a"], [["timeout"]], None), (["beh:wn:a"], [], None), (["beh:wx:a", "beh:wn:a"], [["timeout"]], None),
+    (["beh:wi:a"], [["resolve", "beh:wi:a"], ["timeout"]], None), (["beh:wk:a", "beh:inv:a"], [["resolve", "beh:wk:a"]], None),
+    (["beh:wo:a"], [["resolve", "beh:wo:a"], ["resolve", "beh:wo:a"], ["timeout"]], None),
+    (["beh:wc:a", "beh:wn:a"], [["resolve", "beh:wc:a"], ["timeout"], ["resolve", "beh:wn:a"]], None),
+    (["beh:key:a", "beh:wn:a", "beh:wc:a", "beh:lf:a", "beh:wx:a"], [["resolve", "beh:wc:a"], ["connfail", "beh:lf:a"], ["timeout"], ["timeout"]], None),
+    (["beh:lf:a", "beh:wc:a"], [["connfail", "beh:lf:a"], ["resolve", "beh:wc:a"], ["timeout"]], None),
+    (["beh:wn:a", "beh:wn:a", "beh:lf:a"], [["connfail", "beh:lf:a"], ["connfail", "beh:lf:a"]], None),
+]
+
+
+def late_outcome(impl, h, tor):
+    """what the connector sees of the hint h when the reactor is idle after connect(): (constructor, exception class | None)"""
+    if h.startswith("beh:") and h.split(":")[1] in impl.BEH_WAIT:
+        return ("HWaiting", None)
+    if h.startswith("tor:"):
+        if tor is None or impl.hint_to_endpoint("tor", h)[0] != "ok":
+            return ("HRaises", "InvalidHintError")
+        setup, stage, mode = tor
+        if stage is None:
+            return ("HPending", None)
+        return ("HWaiting", None) if mode == "never" else ("HRaises", "ValueError" if stage == "socksport" else "TorDown")
+    return ca_outcome(impl, h)
+
+
+def late_events(impl, hints, schedule, tor):
+    """the schedule in the model's vocabulary: per schedule entry a list of (constructor text, hint | None).  The FIRST group is
+    implicit: a Tor handler answers an accepted hint through its observer list, i.e. in a LATER reactor turn even when its Tor is
+    there or has already failed -- when connect() returns every accepted Tor hint is waiting (HWaiting), and it settles (endpoint /
+    the Tor's exception) before the reactor is idle, after all synchronous outcomes of the other hints"""
+    distinct = []
+    for h in reversed(hints):                 # the order in which connectToAll considers them = the order in which the Tor's observers fire
+        if h not in distinct:
+            distinct.append(h)
+    settle = []
+    for h in distinct:
+        if tor is not None and h.startswith("tor:") and impl.hint_to_endpoint("tor", h)[0] == "ok":
+            k, e = late_outcome(impl, h, tor)
+            if k != "HWaiting":
+                settle.append(("LResolve %s " + ("HPending" if e is None else '(%s "%s")' % (k, e)), h))
+    out = [settle]
+    for ev in schedule:
+        if ev[0] == "resolve":
+            kind = ev[1].split(":")[1] if ev[1].startswith("beh:") else ""
+            o = impl.BEH_WAIT.get(kind)
+            out.append([("LResolve %s " + ("HWaiting" if o is None else "HPending" if o[1] is None else '(%s "%s")' % o), ev[1])])
+        elif ev[0] == "connfail":
+            out.append([('LConnFail %s "ConnectionRefusedError"', ev[1])])
+        elif ev[0] in ("tor-up", "tor-fail"):
+            what = "HPending" if ev[0] == "tor-up" else '(HRaises "TorDown")'
+            out.append([("LResolve %s " + what, h) for h in distinct if h.startswith("tor:") and late_outcome(impl, h, tor)[0] == "HWaiting"])
+        else:
+            out.append([("LTimeout", None)])
+    return out
+
+
+def gen_late_case(impl, rng):
+    tor = rng.choice(LATE_TOR_STATES) if rng.random() < 0.4 else None
+    pool = LATE_POOL + (LATE_TOR_HINTS * 3 if tor else [])
+    hints = [rng.choice(pool) for _ in range(rng.randrange(1, 7))]
+    cand = []
+    for h in set(hints):
+        kind = h.split(":")[1] if h.startswith("beh:") else ""
+        if kind in impl.BEH_WAIT or rng.random() < 0.15:
+            cand.append(["resolve", h])
+        if kind in ("lf", "wo") or (not h.startswith("tor:") and late_outcome(impl, h, tor)[0] in ("HRaises", "HConnectFails", "HWaiting")
+                                    and rng.random() < 0.15):
+            cand.append(["connfail", h])          # for a hint without a dialled endpoint: nothing happens, in the model too
+    if tor and tor[2] == "never":
+        cand.append([rng.choice(["tor-up", "tor-fail"])])
+    cand.sort()
+    rng.shuffle(cand)
+    sched = [e for e in cand if rng.random() < 0.7]
+    if sched and rng.random() < 0.2:
+        sched.append(rng.choice(sched))
+    if rng.random() < 0.3:
+        sched.insert(rng.randrange(0, len(sched) + 1), ["timeout"])
+    if rng.random() < 0.75:
+        sched.append(["timeout"])
+    # a Tor that comes up / gives up AFTER the connector has given up: the handler's own _connect goes on and its update_status
+    # still writes "waiting for Tor bootstrap" ... over the hint's "abandoned" (stale ConnectionInfo text, no effect on the
+    # connector); not modelled, so not scheduled
+    if ["timeout"] in sched:
+        k = sched.index(["timeout"])
+        sched = sched[:k] + [e for e in sched[k:] if e[0] not in ("tor-up", "tor-fail")]
+    return (hints, sched, tor)
+
+
+def correspond_connect_late(ctx, impl, rng, model_ok):
+    """hints whose handler has NOT answered when connect() returns (a Tor handler whose Tor is starting, a plugin's unfired Deferred) and
+    everything that happens afterwards on a real TubConnector: waiting hints resolve, dialled endpoints refuse, the Tor comes up / gives up,
+    the connect timer fires.  Direct oracle after every event (a waiting hint keeps the connector waiting; failed() at most once; answered
+    as soon as nothing is outstanding and at the latest when the timer fires) and comparison with lib/ConnectAll.v's run_late."""
+    cases = [(list(h), [list(e) for e in sc], t) for h, sc, t in LATE_FIXED]
+    for _ in range(ctx.n(90, 2500)):
+        cases.append(gen_late_case(impl, rng))
+    observed = []
+    timeout = impl.connection_timeout()
+    for hints, sched, tor in cases:
+        o = impl.connect_all_probe(hints, schedule=sched, tor=tor)
+        observed.append(o)
+        ctx.case(["connect-late", hints, sched, list(tor) if tor else None], nontrivial=any(late_outcome(impl, h, tor)[0] == "HWaiting" for h in hints))
+        ctx.hist("late schedule length", len(sched))
+        for h in set(hints):
+            ctx.hist("late hint outcome", late_outcome(impl, h, tor)[0])
+        where = ("TubConnector for the hints %r%s (beh:<kind>: wn / wx = the handler never answers [wx: its canceller fails with RuntimeError], wo / wc / wi / wk = it "
+                 "answers LATER with an endpoint that never answers / an endpoint that refuses / InvalidHintError / KeyError, ok / lf = endpoint that never "
+                 "answers / refuses later, cf / inv / key = connect() refused / InvalidHintError / KeyError at once)"
+                 % (hints, ", \"tor\" handler: %s" % tor_state_name(tor) if tor else ""))
+        rep = dict(hints=hints, schedule=sched, tor=list(tor) if tor else None, observed=o,
+                   python="harness.c20_impl.connect_all_probe(%r, schedule=%r, tor=%r)" % (hints, sched, tor))
+        if o is None or o.get("raised") or o.get("trace_raised"):
+            ctx.fail("oracle/hint-exception-not-contained", "%s: getReference / a reactor turn of the schedule %r raised %s"
+                     % (where, sched, o and (o.get("raised") or o.get("trace_raised"))), replay=rep)
+            continue
+        # what is outstanding, event by event (the property's view: is there anything left to wait for?)
+        out = {h for h in hints if late_outcome(impl, h, tor)[0] in ("HPending", "HWaiting")}
+        waiting = {h for h in out if late_outcome(impl, h, tor)[0] == "HWaiting"}
+        timed = False
+        snaps = [("connect() returned, reactor idle", o)] + [("event %d %r" % (i, sched[i]), sn) for i, sn in enumerate(o["trace"])]
+        problem = None
+        for k, (label, sn) in enumerate(snaps):
+            if k > 0 and not timed:
+                ev = sched[k - 1]
+                if ev[0] == "timeout":
+                    timed = True
+                elif ev[0] == "resolve" and ev[1] in waiting:
+                    r = impl.BEH_WAIT.get(ev[1].split(":")[1]) if ev[1].startswith("beh:") else None
+                    if r is not None:
+                        waiting.discard(ev[1])
+                        if r[1] is not None:
+                            out.discard(ev[1])
+                elif ev[0] == "connfail" and ev[1] in out and ev[1] not in waiting and ev[1].startswith(("beh:lf:", "beh:wo:")):
+                    out.discard(ev[1])
+                elif ev[0] in ("tor-up", "tor-fail"):
+                    for h in [h for h in waiting if h.startswith("tor:")]:
+                        waiting.discard(h)
+                        if ev[0] == "tor-fail":
+                            out.discard(h)
+            if sn["failed"] > 1:
+                problem = ("oracle/connector-reports-twice", "%s: failed() / Tub.connectionFailed ran %d times" % (label, sn["failed"]))
+            elif timed and not sn["answered"]:
+                problem = ("oracle/getreference-stalls", "%s: the connect timeout (%d s) has passed and getReference is STILL UNANSWERED (failed() x %d, %d "
+                           "Deferreds pending, active=%r)" % (label, timeout, sn["failed"], sn["pending"], sn["active"]))
+            elif timed and (sn["pending"] or sn["active"] or sn["timer"]):
+                problem = ("oracle/connector-unfinished-after-timeout", "%s: after the connect timeout the connector still has %d pending Deferreds / active=%r / timer=%r"
+                           % (label, sn["pending"], sn["active"], sn["timer"]))
+            elif not timed and out and (sn["answered"] or sn["failed"] or not sn["active"] or not sn["timer"]):
+                problem = ("oracle/waiting-hint-dropped", "%s: %r are still outstanding (%r of them waiting for their handler) and the connect timeout has not "
+                           "passed, but the connector gave up: answered=%r, failed() x %d, active=%r, timer armed=%r"
+                           % (label, sorted(out), sorted(waiting), sn["answered"], sn["failed"], sn["active"], sn["timer"]))
+            elif not timed and out and sn["pending"] != len(out):
+                problem = ("oracle/waiting-hint-dropped", "%s: %r are outstanding but %d Deferreds are pending" % (label, sorted(out), sn["pending"]))
+            elif not timed and not out and (not sn["answered"] or sn["failed"] != 1 or sn["active"]):
+                problem = ("oracle/getreference-stalls", "%s: nothing is outstanding any more but getReference is %s (failed() x %d, active=%r): it now "
+                           "waits for the connect timeout for nothing" % (label, "answered" if sn["answered"] else "STILL UNANSWERED", sn["failed"], sn["active"]))
+            elif any(h in sn["valid"] for h in waiting):
+                problem = ("oracle/waiting-hint-dropped", "%s: %r have no endpoint yet but are in validHints %r" % (label, sorted(waiting), sn["valid"]))
+            if problem:
+                break
+        if problem:
+            ctx.fail(problem[0], "%s, schedule %r: %s" % (where, sched, problem[1]), replay=rep)
+    ctx.extra["connect_late_cases"] = len(cases)
+    if not model_ok:
+        return
+    rows = []
+    names = []                                   # the model treats a hint as an opaque key: hints go in as [index], one table per case
+    for hints, sched, tor in cases:
+        def outc(h):
+            k, e = late_outcome(impl, h, tor)
+            if tor is not None and h.startswith("tor:") and impl.hint_to_endpoint("tor", h)[0] == "ok":
+                k, e = "HWaiting", None           # settles in the implicit first group of late_events
+            return k if e is None else '(%s "%s")' % (k, e)
+        keys = sorted(set(hints))
+        names.append(keys)
+        hz = lambda h: "[%d%%Z]" % keys.index(h)
+        table = coq_list(["(%s, %s)" % (hz(h), outc(h)) for h in keys])
+        evs = [(t % hz(h) if h is not None else t) for group in late_events(impl, hints, sched, tor) for t, h in group if h is None or h in keys]
+        wx = coq_list([hz(h) for h in keys if h.startswith("beh:wx:")])
+        rows.append("(%s, %s, %s, %s)" % (table, coq_list([hz(h) for h in reversed(hints)]), coq_list(evs), wx))
+    vals = []
+    CH = 400
+    for k in range(0, len(rows), CH):
+        body = ("\nDefinition cases : list (list (list Z * houtcome) * list (list Z) * list lev * list (list Z)) := " + coq_list(rows[k:k + CH]) + ".\n"
+                "Definition lookupb (t : list (list Z * houtcome)) (h : list Z) : houtcome :=\n"
+                "  match find (fun p => list_eqb h (fst p)) t with Some p => snd p | None => HRaises \"InvalidHintError\" end.\n"
+                "Definition rcode (o : option string) : string := match o with Some x => x | None => \"\"%string end.\n"
+                "Definition code (s : cas) := let '(a, v, p, st, r, act, f) := obs s in (a, v, (p, f), st, (rcode r, act)).\n"
+                "Eval vm_compute in map (fun c => let '(t, hs, evs, wx) := c in\n"
+                "  let cx := fun h => if existsb (list_eqb h) wx then \"RuntimeError\"%string else \"CancelledError\"%string in\n"
+                "  let s0 := connect_all (lookupb t) hs in code s0 :: map code (late_trace cx evs s0)) cases.\n")
+        try:
+            (v,) = ctx.coq_eval("C20_connect_late_%d" % (k // CH), body, requires=["Verif.lib.PyLite", "Verif.lib.ConnectAll"])
+        except common.CoqEvalError as e:
+            ctx.fail("correspondence-broken", "the connectToAll late-phase model could not be evaluated: " + tail(str(e), 1200), has_input=False)
+            return
+        vals += v
+    bad = 0
+    for (hints, sched, tor), o, v, keys in zip(cases, observed, vals, names):
+        ctx.traces += 1
+        if o is None or "trace" not in o or len(o["trace"]) != len(sched):
+            continue
+        txt = lambda l, keys=keys: keys[l[0]]
+        groups = [[(t, h) for t, h in g if h is None or h in keys] for g in late_events(impl, hints, sched, tor)]
+        # the model has one state per model event; a schedule entry may stand for several (tor-up: one per waiting Tor hint) or none
+        idx, pos = [], 0
+        for g in groups:                         # groups[0] is the implicit settling of the Tor hints: first comparison after it
+            pos += len(g)
+            idx.append(pos)
+        for k, (i, sn) in enumerate(zip(idx, [o] + o["trace"])):
+            a, va, (p, f), st, (r, act) = v[i]
+            mine = dict(attempted=[txt(x) for x in a], valid=[txt(x) for x in va], pending=p, statuses=[[txt(h), c] for h, c in st],
+                        reason=r or None, active=act, failed=f)
+            theirs = {key: sn[key] for key in mine}
+            if mine != theirs:
+                bad += 1
+                if bad <= 2:
+                    ctx.fail("correspondence/connect-late", "model (ConnectAll.run_late) and TubConnector disagree on the hints %r%s after %s of the schedule %r: "
+                             "model %r, implementation %r" % (hints, ", tor handler %r" % (tor,) if tor else "",
+                                                              "connect()" if k == 0 else "event %d" % (k - 1), sched, mine, theirs),
+                             replay=dict(hints=hints, schedule=sched, tor=list(tor) if tor else None, model=mine, impl=theirs), has_input=False)
+                break
+    ctx.extra["connect_late_disagreements"] = bad
+
+
 # ------------------------------------------------------------------------------ Tor handlers whose Tor is not there
 
 # the family "a hint the handler cannot use" (by what makes it unusable), and three that it can use.  All short: these run
@@ -916,6 +1158,32 @@ def oracle_tor_tub(ctx, impl):
                          "reactor is idle%s: no hint of the FURL is usable, there is nothing to wait for"
                          % (label, furl, tor_state_name(st), " and one second later" if 0 not in obs[-1]["fired"] else ""),
                          replay=dict(events=evs, handlers=plugins, observations=obs, python="harness.c20_impl.tub_history(%r, plugins=%r)" % (evs, plugins)))
+    # a hint the handler ACCEPTS, with a Tor that never comes up: the FURL waits for the Tor (nothing is reported while the connect
+    # timer runs) and is answered when the timer has fired -- the asynchronous path connectionTimedOut -> cancel -> _connectionFailed
+    timeout = impl.connection_timeout()
+    for st in (("launch", "launch", "never"), ("control_endpoint_maker", "maker", "never"), ("control_endpoint", "bootstrap", "never")):
+        plugins = {"tor": "tor@%s@%s@%s" % st}
+        for label, furl in (("only a usable tor hint", "pb://%s@tor:example.onion:80/svc" % t),
+                            ("a usable tor hint among unusable ones", "pb://%s@%s,tor:example.onion:80/svc" % (t, bad))):
+            evs = [["getref", furl], ["advance", timeout - 1], ["advance", 2]]
+            try:
+                obs = impl.tub_history(evs, plugins=plugins)
+            except Exception as e:  # noqa
+                ctx.fail("oracle/hint-exception-not-contained", "%s, Tub with %s: getReference / the reactor turn raised %s: %s"
+                         % (label, tor_state_name(st), type(e).__name__, e), replay=dict(events=evs, handlers=plugins))
+                continue
+            ctx.case(["tor-tub-never-up", label, list(st)], nontrivial=True)
+            rep = dict(events=evs, handlers=plugins, observations=obs, python="harness.c20_impl.tub_history(%r, plugins=%r)" % (evs, plugins))
+            if 0 in obs[1]["fired"]:
+                ctx.fail("oracle/waiting-hint-dropped", "%s: getReference(%r) on a Tub whose \"tor\" handler is %s was answered (%s) %s, while the handler "
+                         "is still waiting for its Tor and the connect timeout (%d s) has not passed" % (label, furl, tor_state_name(st), obs[1]["fired"][0],
+                         "at once" if 0 in obs[0]["fired"] else "within %d s" % (timeout - 1), timeout), replay=rep)
+            elif 0 not in obs[2]["fired"]:
+                ctx.fail("oracle/getreference-stalls", "%s: getReference(%r) on a Tub whose \"tor\" handler is %s is STILL UNANSWERED %d s later "
+                         "(connect timeout %d s): a Tor that never comes up stalls the caller" % (label, furl, tor_state_name(st), timeout + 1, timeout), replay=rep)
+            elif obs[2]["fired"][0] != "NegotiationError":
+                ctx.note("oracle_tor_tub: %s with %s answered with %s at the timeout" % (label, tor_state_name(st), obs[2]["fired"][0]))
+
 
 
 TOR_MODEL_STATES = [   # (model state, real handler in that state)
@@ -1402,7 +1670,9 @@ def run(ctx):
         "tied by ordered shape facts and by the comparison with real handlers in those states; add_context's status update is dropped and assumed not to raise",
         "six.ensure_str on bytes = strict UTF-8 decoding is hand-modelled (Furl.utf8_dec) and compared with the real decode_furl on bytes; non-str/bytes arguments (TypeError) are outside the quantifier",
         "a third-party plugin is abstracted to the outcome of its hint_to_endpoint per hint (endpoint / exception class); a Deferred it returns is taken at its final result",
-        "TubConnector.connectToAll / _connectionFailed / checkForFailure / failed are hand-modelled (lib/ConnectAll.v: endpoints that are dialled never answer), tied by ordered shape facts and compared with real TubConnectors on every run; _connectionFailed's own logging / str(reason.value) is assumed not to raise",
+        "TubConnector.connectToAll / _connectionFailed / checkForFailure / failed and the timer path connectionTimedOut / shutdown / cancelRemainingConnections are hand-modelled (lib/ConnectAll.v: no peer ever completes a connection, so pendingNegotiations stays empty; late phase = waiting hints resolve, pending connects fail, the timer fires, in any order), tied by ordered shape facts and compared with real TubConnectors event by event on every run; _connectionFailed's own logging / str(reason.value) is assumed not to raise",
+        "Deferred.cancel() is taken to fail the Deferred at once with the error its canceller chooses (CancelledError without one): the cancellation error per hint is a parameter (cx) of the timer theorems; the set order of pendingConnections is modelled as a list order (statuses of different hints do not depend on it)",
+        "a Tor handler's own status updates AFTER its hint was cancelled (its _connect goes on when the Tor comes up later and overwrites 'abandoned' with e.g. 'waiting for Tor bootstrap' in the ConnectionInfo) are outside the model and not scheduled in the correspondence",
         "get_endpoint's status / logging effects (connectionInfo._describe_connection_handler, _set_connection_status, describe_handler, log.err) are dropped by the translation and assumed not to raise",
     ]
     ok, log = ctx.coq_build(["props/C20.vo"])
@@ -1561,6 +1831,7 @@ def run(ctx):
     if model_ok and not ok:
         ok_ca, _ = ctx.coq_build(["lib/ConnectAll.vo"])
     correspond_connect_all(ctx, impl, rng, ok_ca)
+    correspond_connect_late(ctx, impl, random.Random(rng.getrandbits(64)), ok_ca)
     if model_ok:
         correspond_identity(ctx, id_pairs)
         ok_c = True
